@@ -300,6 +300,18 @@ def run(ctx):
                     has = set(i for (i, j) in x["mask"])
                     c["states"] = [(-2 if (s_ == 0 and i not in has and rng.random() < 0.7) else s_) for i, s_ in enumerate(x["states"])]
                 c["line"] = impl_line(c); cases.append(c)
+                if kind == "direct":
+                    # directed: an F point without strong connections (NoNeighbors) that another F point strongly depends on,
+                    # with a partition boundary between the two
+                    has = set(i for (i, j) in x["mask"])
+                    pairs = [(j, i) for (j, i) in x["mask"] if x["states"][i] == 0 and i not in has and x["states"][j] == 0 and abs(i - j) >= 1]
+                    if pairs and x["n"] >= 2:
+                        (j, i) = rng.choice(pairs); cut = rng.randint(min(i, j) + 1, max(i, j))
+                        P2 = rng.choice([2, 3])
+                        cuts2 = [0, cut, x["n"]] if P2 == 2 else sorted([0, cut, rng.randint(0, x["n"]), x["n"]])
+                        c2 = dict(x); c2.update(cid="i%dn" % x["k"], kind="direct", P=P2, cuts=cuts2, tap=0, ppn=4)
+                        c2["states"] = [(-2 if (s_ == 0 and q not in has) else s_) for q, s_ in enumerate(x["states"])]
+                        c2["line"] = impl_line(c2); cases.append(c2)
     l1lines = []
     if ctx.replay:
         l1lines = [c["line"] for c in cases if c.get("level1")]; cases = [c for c in cases if not c.get("level1")]
